@@ -532,8 +532,10 @@ class AsyncEventHook(EventHook):
         results = yield [
             wrapped_handler.asynq(*args) for wrapped_handler in wrapped_handlers
         ]
-        for error in filter(None, results):
-            reraise(error)
+        for error in results:
+            # (not by truth value: an exception class may define __len__ or __bool__)
+            if error is not None:
+                reraise(error)
 
     @staticmethod
     def _create_safe_wrapper(handler):
